@@ -204,6 +204,5 @@ Proof.
   - rewrite E, nth_error_app2, Nat.sub_diag, nth_error_app1 by lia. unfold M. rewrite nth_error_map, Hf0. reflexivity.
   - rewrite E, nth_error_app2 by lia. replace (length X + length M - 1 - length X)%nat with (length m - 1)%nat by lia.
     rewrite nth_error_app1 by lia. unfold M. rewrite nth_error_map, Hl0. reflexivity.
-  - lia.
 Qed.
 End Bridge.
